@@ -430,6 +430,11 @@ fn judge_float<T: LFloat, const FMT: u128>(cx: &mut Cx, d: &Desc, spec: &WSpec, 
         cx.distinct += 1;
         return Some(out);
     }
+    if cfg!(miri) {
+        // under Miri the interpreter is the monitor; the exact-arithmetic option oracles run in the native builds
+        cx.distinct += 1;
+        return Some(out);
+    }
     // ---- C14: digits, rounding, notation, trimming, punctuation
     let o = match split_out(&out, radix, d.eradix(), spec.point, spec.exp) {
         Some(o) => o,
@@ -620,7 +625,13 @@ fn judge_int<T: LInt, const FMT: u128>(cx: &mut Cx, d: &Desc, v: T, full: bool) 
             if l > out.len() + 2 && l + 2 < bound && l % 7 != 0 {
                 continue;
             }
+            if cx.small && !(l == 0 || l + 1 == out.len() || l == out.len() || l + 1 == bound) {
+                continue;
+            }
             for pl in [guard::Place::Tail, guard::Place::Head] {
+                if cx.small && pl == guard::Place::Head {
+                    continue;
+                }
                 guard::set_crumb(format!("write {} {} {vs} L={l} {pl:?}", d.name(), ty).as_bytes());
                 let ws = write_opt_w::<T, FMT>(&mut cx.arena, v, l, pl, &wopts);
                 bump(cx, "c09.short-buffer-writes");
@@ -711,7 +722,14 @@ fn run_format<const FMT: u128>(cx: &mut Cx, d: &Desc, idx: usize, seed: u64, rep
         let (point, exp) = wgen::punct_for(d, variant, &mut orng);
         let sv = if variant == 0 { 0 } else { 1 + orng.below(4) as u32 };
         let (nan, inf, infinity) = wgen::special_strings(&mut orng, sv);
-        let mut specs = wgen::option_grid(&mut orng, point, exp, nspecs);
+        let mut specs = wgen::option_grid(&mut orng, point, exp, nspecs.max(32));
+        if cx.small {
+            // Miri / valgrind size: default, trim, exponent notation, max 1 (round), max 17 (truncate), min 5, seeded one
+            let pick = [0usize, 1, 2, 4, 17, 20, 31];
+            specs = pick.iter().map(|&i| specs[i].clone()).collect();
+        } else {
+            specs.truncate(nspecs);
+        }
         for s in specs.iter_mut() {
             s.nan = nan;
             s.inf = inf;
@@ -724,7 +742,7 @@ fn run_format<const FMT: u128>(cx: &mut Cx, d: &Desc, idx: usize, seed: u64, rep
             }
             let mut vals = wgen::float_values(kind, radix, &mut rng, nrand, cx.thorough && idx % 8 == 0);
             if cx.small {
-                let keep: Vec<u64> = (0..60).map(|_| vals[rng.below(vals.len() as u64) as usize]).collect();
+                let keep: Vec<u64> = (0..18).map(|_| vals[rng.below(vals.len() as u64) as usize]).collect();
                 vals = keep;
                 vals.extend_from_slice(&[0, 1, kind.inf_bits() - 1]);
             }
@@ -747,7 +765,7 @@ fn run_format<const FMT: u128>(cx: &mut Cx, d: &Desc, idx: usize, seed: u64, rep
                 let stride = if si < 12 { 1 } else { 3 };
                 let mut i = (si + variant as usize) % stride;
                 while i < vals.len() {
-                    let depth = if (i + si) % 16 == 0 { Depth::Full } else { Depth::Normal };
+                    let depth = if (i + si) % (if cx.small { 48 } else { 16 }) == 0 { Depth::Full } else { Depth::Normal };
                     if is32 {
                         judge_float::<f32, FMT>(cx, d, spec, &wopts, &popts, vals[i], defs[i].as_ref(), depth, &mut rng);
                     } else {
@@ -818,7 +836,9 @@ fn run_default_api(cx: &mut Cx, seed: u64, shard: usize, nshards: usize) {
     for (is32, kind) in [(false, oracle::F64), (true, oracle::F32), (false, oracle::F64), (true, oracle::F32), (false, oracle::F64), (true, oracle::F32), (false, oracle::F64), (true, oracle::F32)] {
         let mut vals = wgen::float_values(kind, 10, &mut rng, if cx.small { 50 } else if cx.thorough { 50_000 } else { 2000 }, cx.thorough);
         if cx.small {
-            vals.truncate(300);
+            let keep: Vec<u64> = (0..40).map(|_| vals[rng.below(vals.len() as u64) as usize]).collect();
+            vals = keep;
+            vals.extend_from_slice(&[0, 1, kind.inf_bits() - 1]);
         }
         let n0 = vals.len();
         for i in (0..n0).step_by(3) {
@@ -833,6 +853,46 @@ fn run_default_api(cx: &mut Cx, seed: u64, shard: usize, nshards: usize) {
                 judge_default_write::<f32>(cx, &d, f32::from_bits(b as u32), format!("{b:#x}"), "f32");
             } else {
                 judge_default_write::<f64>(cx, &d, f64::from_bits(b), format!("{b:#x}"), "f64");
+            }
+        }
+    }
+    // options the builder ACCEPTS must only ever produce ASCII: offer it non-ASCII / control punctuation and special
+    // strings; whatever `build()` lets through is driven through the writer and the allocating facade
+    if mine() {
+        const STD: u128 = lexical_core::format::STANDARD;
+        let bytes: [u8; 12] = [0x00, 0x01, 0x08, 0x0e, 0x1f, 0x7f, 0x80, 0x9f, 0xa0, 0xb7, 0xe9, 0xff];
+        let strs: [&'static [u8]; 8] = [b"n\xe9n", b"N\x80", b"nan\xff", b"\xeean", b"i\xb7f", b"Inf\x00", b"n a n", b"in_f"];
+        let vals: [u64; 6] = [1.5f64.to_bits(), (-2.5e30f64).to_bits(), 1e-7f64.to_bits(), f64::NAN.to_bits(), f64::INFINITY.to_bits(), f64::NEG_INFINITY.to_bits()];
+        let mut builders: Vec<(String, lexical_core::WriteFloatOptionsBuilder)> = Vec::new();
+        for &c in &bytes {
+            builders.push((format!("decimal_point={c:#x}"), lexical_core::WriteFloatOptions::builder().decimal_point(c)));
+            builders.push((format!("exponent={c:#x}"), lexical_core::WriteFloatOptions::builder().exponent(c)));
+        }
+        for st in strs {
+            builders.push((format!("nan_string={}", show(st)), lexical_core::WriteFloatOptions::builder().nan_string(Some(st))));
+            builders.push((format!("inf_string={}", show(st)), lexical_core::WriteFloatOptions::builder().inf_string(Some(st))));
+        }
+        for (name, b) in builders {
+            bump(cx, "c17.hostile-options-offered");
+            let opts = match b.build() {
+                Ok(o) => o,
+                Err(_) => continue,
+            };
+            bump(cx, "c17.hostile-options-accepted-by-builder");
+            for &bits in &vals {
+                let v = f64::from_bits(bits);
+                let bound = opts.buffer_size_const::<f64, STD>();
+                let w = write_opt_w::<f64, STD>(&mut cx.arena, v, bound, guard::Place::Tail, &opts);
+                if let Ok(o) = &w.res {
+                    if o.iter().any(|&x| x >= 0x80) {
+                        viol(cx, "C17", "non-ascii-output-under-accepted-options", &d, &name, "f64", format!("{bits:#x}"), o, "the options builder accepted these options".into());
+                    }
+                }
+                if let Ok(sv) = report::catch(|| lexical::to_string_with_options::<f64, STD>(v, &opts)) {
+                    if std::str::from_utf8(sv.as_bytes()).is_err() {
+                        viol(cx, "C17", "to_string-returned-invalid-utf8", &d, &name, "f64", format!("{bits:#x}"), sv.as_bytes(), "the options builder accepted these options".into());
+                    }
+                }
             }
         }
     }
@@ -935,7 +995,13 @@ where
         if l > out.len() + 1 && l + 1 < bound && cx.n % 5 != 0 {
             continue;
         }
+        if cx.small && !(l == 0 || l + 1 == out.len() || l == out.len() || l + 1 == bound) {
+            continue;
+        }
         for pl in [guard::Place::Tail, guard::Place::Head] {
+            if cx.small && pl == guard::Place::Head {
+                continue;
+            }
             guard::set_crumb(format!("write default {ty} {vs} L={l} {pl:?}").as_bytes());
             let ws = write_default_w::<T>(&mut cx.arena, v, l, pl);
             bump(cx, "c09.short-buffer-writes");
